@@ -408,12 +408,15 @@ type sysListServer struct {
 	srv   *http.Server
 	mu    sync.Mutex
 	lists map[string][]byte
-	Hits  atomic.Int64
+	cuts  map[string]int
+	// CutServed counts responses that were cut short on purpose.
+	CutServed atomic.Int64
+	Hits      atomic.Int64
 	delay atomic.Int64 // max microseconds
 }
 
 func sysStartListServer() (ls *sysListServer, err error) {
-	ls = &sysListServer{lists: map[string][]byte{}}
+	ls = &sysListServer{lists: map[string][]byte{}, cuts: map[string]int{}}
 	for attempt := 0; attempt < 8; attempt++ {
 		ls.Port = verifkit.FreePort()
 		ln, e := net.Listen("tcp4", fmt.Sprintf("127.0.0.1:%d", ls.Port))
@@ -430,11 +433,27 @@ func sysStartListServer() (ls *sysListServer, err error) {
 			}
 			ls.mu.Lock()
 			b, ok := ls.lists[r.URL.Path]
+			cut, isCut := ls.cuts[r.URL.Path]
 			ls.mu.Unlock()
 			if !ok {
 				http.NotFound(w, r)
 
 				return
+			}
+			if isCut {
+				// Announce the whole body, send only a part and drop the
+				// connection.
+				ls.CutServed.Add(1)
+				if hj, hok := w.(http.Hijacker); hok {
+					if conn, buf, herr := hj.Hijack(); herr == nil {
+						_, _ = fmt.Fprintf(buf, "HTTP/1.1 200 OK\r\nContent-Type: text/plain\r\nContent-Length: %d\r\n\r\n", len(b))
+						_, _ = buf.Write(b[:min(cut, len(b))])
+						_ = buf.Flush()
+						_ = conn.Close()
+
+						return
+					}
+				}
 			}
 			w.Header().Set("Content-Type", "text/plain")
 			_, _ = w.Write(b)
@@ -451,6 +470,15 @@ func sysStartListServer() (ls *sysListServer, err error) {
 func (ls *sysListServer) Set(path string, content []byte) {
 	ls.mu.Lock()
 	ls.lists[path] = content
+	delete(ls.cuts, path)
+	ls.mu.Unlock()
+}
+
+// SetCut makes the server announce content but send only its first n bytes.
+func (ls *sysListServer) SetCut(path string, content []byte, n int) {
+	ls.mu.Lock()
+	ls.lists[path] = content
+	ls.cuts[path] = n
 	ls.mu.Unlock()
 }
 
